@@ -653,18 +653,26 @@ func (mf *MultiFileAppendable) appendableFor(off int64) (appendable.Appendable, 
 	}
 
 	mf.mutex.Lock()
-	defer mf.mutex.Unlock()
 
 	if mf.closed {
+		mf.mutex.Unlock()
 		return nil, ErrAlreadyClosed
 	}
 
 	app, err := mf.appendables.Get(appID)
+	if errors.Is(err, cache.ErrKeyNotFound) {
+		// the chunk was evicted by a concurrent open (or by the rotation of the
+		// current chunk) before a reference could be taken, it has to be opened again
+		mf.mutex.Unlock()
+		return mf.appendableFor(off)
+	}
 	if err != nil {
+		mf.mutex.Unlock()
 		return nil, err
 	}
 
 	mf.maybePrefetchAheadLocked(appID)
+	mf.mutex.Unlock()
 	return app, nil
 }
 
